@@ -10,7 +10,7 @@ from .. import sym
 from ..evalfn import SELF, property_backing
 from ..source import AnalysisError
 from ..sym import canon
-from .common import (CORE, G, GX, plain, truth_equiv, working_for, increments_by, loop_conditions, store_increment, Roles, cur, dominates, final_value, fld, guard_subset, has_lit, hist_fill, hist_store, is_entry, lits, loops_prefix,
+from .common import (over_all_children, own_event, CORE, G, GX, plain, truth_equiv, working_for, increments_by, loop_conditions, store_increment, Roles, cur, dominates, final_value, fld, guard_subset, has_lit, hist_fill, hist_store, is_entry, lits, loops_prefix,
                      mentions_field, mentions_param, postdominates, series_name, short)
 
 SEC_CLASSES = ["SecurityBase", "Security", "FixedIncomeSecurity", "CouponPayingSecurity", "HedgeSecurity", "CouponPayingHedgeSecurity"]
@@ -461,7 +461,7 @@ def strategy_update(chk, pid):
                            where=w.where, expected=short(exp, 300), found=short(v, 300), sample={"value": short(v, 200)})
         # the sweep: what is added to cash is what is removed from the children
         capw = S.writes(R.CAPITAL, SELF)
-        own = [w for w in capw if w.chain == (S.fn.qual,)]
+        own = [w for w in capw if own_event(w, S.fn.qual)]
         chk.need(own, "%s no longer sweeps child cash into the strategy's cash" % host)
         wcap = own[-1]
         for g, v in children_cases(wcap.value):
@@ -510,7 +510,7 @@ def strategy_update(chk, pid):
                    where=w.where, expected="newpt or not is_zero(value - val) [or not is_zero(notional - notl)]", found=why, sample={"guard": sym.fmt_guard(w.guard)[:200]})
     # ---- C07: a strategy's bid/offer paid is the sum over its (updated) children
     if pid == "C07":
-        bw = [w for w in S.writes(R.BIDOFFER_PAID, SELF) if w.chain == (S.fn.qual,)]
+        bw = [w for w in S.writes(R.BIDOFFER_PAID, SELF) if own_event(w, S.fn.qual)]
         for w in bw:
             g = G(w)
             feat = sym.lit_holds(g, fld(SELF, "_bidoffer_set"), True)
@@ -557,7 +557,8 @@ def strategy_update(chk, pid):
                 continue
             base = sym.restrict(the_notl if is_fi else the_val, g)
             numer_field = R.NOTIONAL if is_fi else R.VALUE
-            elem_lits = [l for l in plain(w.guard) if sym.contains(l[0], lambda n: n == c) and not sym.contains(l[0], lambda n: n[0] == "sum")]
+            cc = canon(c)
+            elem_lits = [l for l in plain(w.guard) if (sym.contains(l[0], lambda n: n == c) or sym.contains(canon(l[0]), lambda n: n == cc)) and not sym.contains(l[0], lambda n: n[0] == "sum")]
             skip = canon(("and", ("fld", c, "_issec", 0), ("not", ("fld", c, R.NEEDUPDATE, 0))))
             okf = truth_equiv([(canon(_strip_all_versions(l[0])), l[1]) for l in elem_lits], ("not", skip), [("fld", c, "_issec", 0), ("fld", c, R.NEEDUPDATE, 0)])
             chk.ob("C01.R3", okf, CORE, host, "weight-loop-filter:%s" % ("fi" if is_fi else "mv"),
@@ -635,7 +636,7 @@ def _strategy_rows(chk, pid, S, fi, host, R, pairs):
                    expected=short(cur(e, SELF, field), 200), found=short(val, 200), sample={"series": series, "field": field})
         # every write of the field inside update is followed by a row store on the same paths
         for w in wf:
-            if w.chain != (S.fn.qual,):
+            if not own_event(w, S.fn.qual):
                 continue
             later = [e for e, hs in cands if e.seq > w.seq and guard_subset([l for l in e.guard if not _feature_flag(l)], w.guard)]
             chk.ob("C01.R4", bool(later), CORE, host, "row-after-write:%s" % series, "every change of %s in update is followed by recording its row" % field, where=w.where,
@@ -767,7 +768,7 @@ def _reset_rules(chk, pid, S, fi, host, R):
         if field is None:
             chk.ob("C03.R2", False, CORE, host, "reset-missing:last(%s)" % src, "the previous %s must be snapshotted when the date changes" % src, where=fi.where)
             continue
-        ws = [w for w in S.writes(field, SELF) if w.chain == (S.fn.qual,)]
+        ws = [w for w in S.writes(field, SELF) if own_event(w, S.fn.qual)]
         good = []
         for w in ws:
             g = lits(w.guard)
@@ -792,7 +793,7 @@ def _reset_rules(chk, pid, S, fi, host, R):
             chk.ob("C03.R2", not extra, CORE, host, "reset-on-every-date-change:%s" % field, "%s is handled on every date change, not only on some" % field, where=w.where,
                    expected="no further condition", found=sym.fmt_guard(extra))
     # the clock moves after the test
-    nw = [w for w in S.writes("now", SELF) if w.chain == (S.fn.qual,)]
+    nw = [w for w in S.writes("now", SELF) if own_event(w, S.fn.qual)]
     if pid in ("C03", "C08"):
         ok = bool(nw) and all(canon(w.value) == canon(DATE) for w in nw)
         chk.ob("C08.R1", ok, CORE, host, "clock-set", "update moves the node's clock to the date", where=fi.where)
@@ -1093,7 +1094,7 @@ def transact_rules(chk, pid):
     pw = S.writes(R.POSITION, SELF)
     if pid in ("C01", "C02", "C07", "C10"):
         first_effect = min([w.seq for w in pw] + [w.seq for w in S.writes(R.NEEDUPDATE, SELF)] + [e.seq for e in adj] or [10 ** 9])
-        late = [r for r in S.raises if r.seq > first_effect and r.chain == (S.fn.qual,)]
+        late = [r for r in S.raises if r.seq > first_effect and own_event(r, S.fn.qual)]
         chk.ob("C02.R1", not late, CORE, host, "no-partial-trade-on-error", "a refused trade changes nothing: every error is raised before the position, the flags or the parent's cash are touched",
                where=late[0].where if late else fi.where, expected="raise before the first write", found="%d raise sites after the position changed" % len(late))
     if pid in ("C10", "C02"):
@@ -1387,7 +1388,7 @@ def strategy_allocate_rules(chk, pid):
             eb = bound_args(e, chk.prog)
             amt = eb.get("amount")
             w = ("fld", e.recv, R.WEIGHT, 0)
-            ok = amt is not None and equal(amt, ("*", amount, w)) and e.recv[1][0] == "fld" and e.recv[1][2] == "_childrenv" and not e.loops[-1].filter
+            ok = amt is not None and equal(amt, ("*", amount, w)) and over_all_children(e.recv[1], SELF) and not e.loops[-1].filter
         chk.ob("C06.R7", ok, CORE, host, "spread-by-weight", "a strategy spreads received capital over all its children in proportion to their current weights", where=fi.where,
                expected="c.allocate(amount * c.weight) for every child", found="%d spread sites" % len(spread))
     if pid in ("C19", "C06"):
@@ -1499,7 +1500,7 @@ def accessor_rules(chk, pid):
             # what does it hand out?
             ret_fields, ret_series, reads_accessors = set(), set(), set()
             for e in S.events:
-                if e.kind == "return" and e.chain == (fi.qual,):
+                if e.kind == "return" and tuple(e.chain) == (fi.qual,):
                     for n in sym.walk(e.value):
                         if n[0] == "fld" and canon(n[1]) == canon(SELF):
                             if n[2] in all_series:
@@ -1512,7 +1513,7 @@ def accessor_rules(chk, pid):
             needs_self = is_sec and bool((ret_fields & (tree_fields | date_fields)) or (ret_series & (tree_series | date_series | input_series)))
             if (cname, name) in SELF_REFRESH_EXCEPTIONS:
                 needs_self = False
-            rets = [e for e in S.events if e.kind == "return" and e.chain == (fi.qual,)]
+            rets = [e for e in S.events if e.kind == "return" and tuple(e.chain) == (fi.qual,)]
             tree_ref = [e for e in S.calls("update") if e.recv is not None and e.recv[0] == "fld" and e.recv[2] == "root" and canon(e.recv[1]) == canon(SELF)
                         and any(p and a[0] == "fld" and a[2] == R.STALE for a, p in e.guard)]
             self_ref = [e for e in S.calls("update") if e.recv == SELF]
